@@ -1118,4 +1118,840 @@ theorem Message.parse_then_ser_canon (b buf : Bytes) (m : Message) (h : Message.
     exact Message.deser_ser_all m buf _ extra hmwf (Message.deserialize_suffix b m h) hser
 
 
+/-! ### parse, then re-serialise: byte level (canonical form) -/
+
+
+/-- octet 6 with the reserved flag bits 3, 4, 7 cleared -/
+def canon6 (b : UInt8) : UInt8 := UInt8.ofNat (b.toNat % 8 + b.toNat / 32 % 4 * 32)
+/-- octet 7 with the reserved flag bit 7 cleared -/
+def canon7 (b : UInt8) : UInt8 := UInt8.ofNat (b.toNat % 128)
+
+/-- the 34 header octets with the reserved fields zeroed: flag bits 3,4,7 of octet 6, bit 7 of octet 7,
+    messageTypeSpecific (16..19), controlField (32) -/
+def canonHeader : Bytes → Bytes
+  | b0 :: b1 :: l0 :: l1 :: b4 :: b5 :: b6 :: b7 ::
+    c0 :: c1 :: c2 :: c3 :: c4 :: c5 :: c6 :: c7 ::
+    _ :: _ :: _ :: _ ::
+    i0 :: i1 :: i2 :: i3 :: i4 :: i5 :: i6 :: i7 :: p0 :: p1 ::
+    s0 :: s1 :: _ :: li :: _ =>
+    [b0, b1, l0, l1, b4, b5, canon6 b6, canon7 b7, c0, c1, c2, c3, c4, c5, c6, c7, 0, 0, 0, 0,
+     i0, i1, i2, i3, i4, i5, i6, i7, p0, p1, s0, s1, 0, li]
+  | _ => []
+
+theorem b2n_mod2 (m : Nat) : b2n (decide (m % 2 = 1)) = m % 2 := by
+  unfold b2n
+  by_cases h : m % 2 = 1
+  · simp [h]
+  · have : m % 2 = 0 := by omega
+    simp [this]
+
+theorem flags6_bits (n : Nat) :
+    b2n (bit n 0) + 2 * b2n (bit n 1) + 4 * b2n (bit n 2) + 32 * b2n (bit n 5) + 64 * b2n (bit n 6)
+      = n % 8 + n / 32 % 4 * 32 := by
+  simp only [bit, b2n_mod2]
+  omega
+
+theorem flags7_bits (n : Nat) :
+    b2n (bit n 0) + 2 * b2n (bit n 1) + 4 * b2n (bit n 2) + 8 * b2n (bit n 3) + 16 * b2n (bit n 4) +
+      32 * b2n (bit n 5) + 64 * b2n (bit n 6) = n % 128 := by
+  simp only [bit, b2n_mod2]
+  omega
+
+theorem ofI64_toI64 (n : Nat) (h : n < 256 ^ 8) : ofI64 (toI64 n) = n := by
+  unfold ofI64 toI64; split <;> omega
+
+theorem byte0_eq (b0 b5 : UInt8) :
+    UInt8.ofNat ((b0.toNat / 16 * 256 + b5.toNat) / 256 % 16 * 16 + b0.toNat % 16 % 16) = b0 := by
+  apply UInt8.toNat_inj.mp
+  have := b0.toNat_lt; have := b5.toNat_lt
+  rw [toNat_ofNat]; omega
+
+theorem byte1_eq (b1 : UInt8) : UInt8.ofNat (b1.toNat / 16 % 16 * 16 + b1.toNat % 16 % 16) = b1 := by
+  apply UInt8.toNat_inj.mp
+  have := b1.toNat_lt
+  rw [toNat_ofNat]; omega
+
+theorem byte5_eq (b0 b5 : UInt8) : UInt8.ofNat ((b0.toNat / 16 * 256 + b5.toNat) % 256) = b5 := by
+  apply UInt8.toNat_inj.mp
+  have := b0.toNat_lt; have := b5.toNat_lt
+  rw [toNat_ofNat]; omega
+
+/-- header: parse, then serialise with the parsed type and length = the canonical 34 octets -/
+theorem Header.ser_deser (b : Bytes) (dh : DeserializedHeader) (h : Header.deserialize b = .ok dh)
+    (hl : 34 ≤ dh.messageLength) :
+    dh.header.serialize dh.messageType (dh.messageLength - 34) = .ok (canonHeader b) := by
+  unfold Header.deserialize at h
+  split at h
+  · rename_i b0 b1 l0 l1 b4 b5 b6 b7 c0 c1 c2 c3 c4 c5 c6 c7 r0 r1 r2 r3 i0 i1 i2 i3 i4 i5 i6 i7 p0 p1 s0 s1 ctl li rest
+    simp only [] at h
+    split at h
+    · cases h
+      simp only [] at hl ⊢
+      have hlen : beNat [l0, l1] < 256 ^ 2 := beNat_lt [l0, l1]
+      unfold Header.serialize
+      rw [if_neg (by omega)]
+      have e0 : beNat [l0, l1] - 34 + 34 = beNat [l0, l1] := by omega
+      have eL : beBytes 2 (beNat [l0, l1]) = [l0, l1] := beBytes_beNat [l0, l1]
+      have eC : beBytes 8 (ofI64 (toI64 (beNat [c0, c1, c2, c3, c4, c5, c6, c7])))
+          = [c0, c1, c2, c3, c4, c5, c6, c7] := by
+        rw [ofI64_toI64 _ (beNat_lt [c0, c1, c2, c3, c4, c5, c6, c7])]
+        exact beBytes_beNat [c0, c1, c2, c3, c4, c5, c6, c7]
+      have eI : beBytes 8 (beNat [i0, i1, i2, i3, i4, i5, i6, i7]) = [i0, i1, i2, i3, i4, i5, i6, i7] :=
+        beBytes_beNat [i0, i1, i2, i3, i4, i5, i6, i7]
+      have eP : beBytes 2 (beNat [p0, p1]) = [p0, p1] := beBytes_beNat [p0, p1]
+      have eS : beBytes 2 (beNat [s0, s1]) = [s0, s1] := beBytes_beNat [s0, s1]
+      simp only [Header.flags6, Header.flags7, flags6_bits, flags7_bits,
+        PortIdentity.bytes, e0, eL, eC, eI, eP, eS, byte0_eq, byte1_eq, byte5_eq, UInt8.ofNat_toNat,
+        canonHeader, canon6, canon7, List.cons_append, List.nil_append]
+    · cases h
+  · cases h
+
+
+
+theorem Timestamp.bytes_deser (c : Bytes) (t : Timestamp) (h : Timestamp.deserialize c = .ok t) :
+    t.bytes = c.take 10 := by
+  unfold Timestamp.deserialize at h
+  split at h
+  · rename_i s0 s1 s2 s3 s4 s5 n0 n1 n2 n3 rest
+    simp only [] at h
+    split at h
+    · cases h
+    · cases h
+      have e1 : beBytes 6 (beNat [s0, s1, s2, s3, s4, s5]) = [s0, s1, s2, s3, s4, s5] :=
+        beBytes_beNat [s0, s1, s2, s3, s4, s5]
+      have e2 : beBytes 4 (beNat [n0, n1, n2, n3]) = [n0, n1, n2, n3] := beBytes_beNat [n0, n1, n2, n3]
+      simp only [Timestamp.bytes, e1, e2]
+      rfl
+  · cases h
+
+theorem PortIdentity.bytes_deser (c : Bytes) (p : PortIdentity) (h : PortIdentity.deserialize c = .ok p) :
+    p.bytes = c.take 10 := by
+  unfold PortIdentity.deserialize at h
+  split at h
+  · rename_i c0 c1 c2 c3 c4 c5 c6 c7 p0 p1 rest
+    cases h
+    have e1 : beBytes 8 (beNat [c0, c1, c2, c3, c4, c5, c6, c7]) = [c0, c1, c2, c3, c4, c5, c6, c7] :=
+      beBytes_beNat [c0, c1, c2, c3, c4, c5, c6, c7]
+    have e2 : beBytes 2 (beNat [p0, p1]) = [p0, p1] := beBytes_beNat [p0, p1]
+    simp only [PortIdentity.bytes, e1, e2]
+    rfl
+  · cases h
+
+theorem Timestamp.deserialize_len (c : Bytes) (t : Timestamp) (h : Timestamp.deserialize c = .ok t) :
+    10 ≤ c.length := by
+  unfold Timestamp.deserialize at h
+  split at h
+  · simp
+  · cases h
+
+theorem PortIdentity.deserialize_len (c : Bytes) (p : PortIdentity) (h : PortIdentity.deserialize c = .ok p) :
+    10 ≤ c.length := by
+  unfold PortIdentity.deserialize at h
+  split at h
+  · simp
+  · cases h
+
+theorem tsPort_bytes_deser (c : Bytes) (t : Timestamp) (p : PortIdentity) (h : tsPort c = .ok (t, p)) :
+    t.bytes ++ p.bytes = c.take 20 := by
+  unfold tsPort at h
+  split at h
+  · cases h
+  · rename_i hl
+    cases ht : Timestamp.deserialize c with
+    | error e => simp [ht, bind, Except.bind] at h
+    | ok t' =>
+      cases hp : PortIdentity.deserialize (c.drop 10) with
+      | error e => simp [ht, hp, bind, Except.bind] at h
+      | ok p' =>
+        simp [ht, hp, bind, Except.bind, pure, Except.pure] at h
+        obtain ⟨rfl, rfl⟩ := h
+        rw [Timestamp.bytes_deser _ _ ht, PortIdentity.bytes_deser _ _ hp]
+        have : c.take 20 = c.take 10 ++ (c.drop 10).take 10 := by
+          rw [← List.take_append_drop 10 (c.take 20)]
+          simp [List.take_take, List.drop_take]
+        rw [this]
+
+
+
+/-- `MessageBody::wire_size` as a function of the message type -/
+def bodySize (ty : Nat) : Nat :=
+  if ty = 2 ∨ ty = 3 ∨ ty = 9 ∨ ty = 10 then 20 else if ty = 11 then 30 else if ty = 13 then 14 else 10
+
+/-- clockAccuracy octet: reserved codes (0x00..0x16, 0x32..0x7f, 0xff) are written back as 0 -/
+def canonAcc (a : UInt8) : UInt8 := if ClockAccuracy.fromPrimitive a.toNat = .reserved then 0 else a
+/-- management actionField octet: codes above 5 are written back as 5 (`Reserved`) -/
+def canonAct (a : UInt8) : UInt8 := UInt8.ofNat (min a.toNat 5)
+
+/-- the body octets with the fields the codec does not reproduce canonicalised: the 10 reserved octets of
+    Pdelay_Req, Announce octet 12 (reserved; never written by the encoder: 0 in a zeroed buffer) and the
+    clockAccuracy octet, Management octet 10 (reserved; never written) and the actionField octet -/
+def canonBody (ty : Nat) (w : Bytes) : Bytes :=
+  if ty = 2 then w.take 10 ++ List.replicate 10 0
+  else if ty = 11 then
+    match w with
+    | o0 :: o1 :: o2 :: o3 :: o4 :: o5 :: o6 :: o7 :: o8 :: o9 :: u0 :: u1 :: _ :: p1 :: cl :: ac :: v0 :: v1 ::
+      p2 :: i0 :: i1 :: i2 :: i3 :: i4 :: i5 :: i6 :: i7 :: s0 :: s1 :: src :: _ =>
+      [o0, o1, o2, o3, o4, o5, o6, o7, o8, o9, u0, u1, 0, p1, cl, canonAcc ac, v0, v1, p2,
+       i0, i1, i2, i3, i4, i5, i6, i7, s0, s1, src]
+    | _ => w
+  else if ty = 13 then
+    match w with
+    | t0 :: t1 :: t2 :: t3 :: t4 :: t5 :: t6 :: t7 :: t8 :: t9 :: _ :: sh :: h :: a :: _ =>
+      [t0, t1, t2, t3, t4, t5, t6, t7, t8, t9, 0, sh, h, canonAct a]
+    | _ => w
+  else w
+
+theorem ClockAccuracy.toPrimitive_fromPrimitive (a : UInt8) :
+    (ClockAccuracy.fromPrimitive a.toNat).toPrimitive = .ok (canonAcc a).toNat := by
+  have hlt := a.toNat_lt
+  unfold canonAcc ClockAccuracy.fromPrimitive
+  split
+  · simp [ClockAccuracy.toPrimitive]
+  · split
+    · rename_i h1 h2
+      simp only [ClockAccuracy.toPrimitive]
+      rw [if_neg (by omega)]
+      simp; omega
+    · split
+      · rename_i h3; simp [ClockAccuracy.toPrimitive, h3]
+      · simp [ClockAccuracy.toPrimitive]
+
+theorem TimeSource.toPrimitive_fromPrimitive (v : Nat) : (TimeSource.fromPrimitive v).toPrimitive = v := by
+  unfold TimeSource.fromPrimitive
+  split
+  · rfl
+  · split <;> rfl
+
+theorem Announce.ser_deser (c : Bytes) (a : Announce) (old tl : Bytes) (h : Announce.deserialize c = .ok a)
+    (hold : old.drop 12 = 0 :: tl) :
+    (Body.announce a).serialize old = .ok (canonBody 11 (c.take 30)) := by
+  unfold Announce.deserialize at h
+  split at h
+  · cases h
+  · rename_i hl
+    cases ht : Timestamp.deserialize c with
+    | error e => simp [ht, bind, Except.bind] at h
+    | ok origin =>
+    have hob := Timestamp.bytes_deser _ _ ht
+    rw [ht] at h
+    simp only [bind, Except.bind] at h
+    have hl : 30 ≤ c.length := by omega
+    obtain ⟨x0, b0, rfl, h0⟩ := len_ge_succ hl
+    obtain ⟨x1, b1, rfl, h1⟩ := len_ge_succ h0
+    obtain ⟨x2, b2, rfl, h2⟩ := len_ge_succ h1
+    obtain ⟨x3, b3, rfl, h3⟩ := len_ge_succ h2
+    obtain ⟨x4, b4, rfl, h4⟩ := len_ge_succ h3
+    obtain ⟨x5, b5, rfl, h5⟩ := len_ge_succ h4
+    obtain ⟨x6, b6, rfl, h6⟩ := len_ge_succ h5
+    obtain ⟨x7, b7, rfl, h7⟩ := len_ge_succ h6
+    obtain ⟨x8, b8, rfl, h8⟩ := len_ge_succ h7
+    obtain ⟨x9, b9, rfl, h9⟩ := len_ge_succ h8
+    obtain ⟨x10, b10, rfl, h10⟩ := len_ge_succ h9
+    obtain ⟨x11, b11, rfl, h11⟩ := len_ge_succ h10
+    obtain ⟨x12, b12, rfl, h12⟩ := len_ge_succ h11
+    obtain ⟨x13, b13, rfl, h13⟩ := len_ge_succ h12
+    obtain ⟨x14, b14, rfl, h14⟩ := len_ge_succ h13
+    obtain ⟨x15, b15, rfl, h15⟩ := len_ge_succ h14
+    obtain ⟨x16, b16, rfl, h16⟩ := len_ge_succ h15
+    obtain ⟨x17, b17, rfl, h17⟩ := len_ge_succ h16
+    obtain ⟨x18, b18, rfl, h18⟩ := len_ge_succ h17
+    obtain ⟨x19, b19, rfl, h19⟩ := len_ge_succ h18
+    obtain ⟨x20, b20, rfl, h20⟩ := len_ge_succ h19
+    obtain ⟨x21, b21, rfl, h21⟩ := len_ge_succ h20
+    obtain ⟨x22, b22, rfl, h22⟩ := len_ge_succ h21
+    obtain ⟨x23, b23, rfl, h23⟩ := len_ge_succ h22
+    obtain ⟨x24, b24, rfl, h24⟩ := len_ge_succ h23
+    obtain ⟨x25, b25, rfl, h25⟩ := len_ge_succ h24
+    obtain ⟨x26, b26, rfl, h26⟩ := len_ge_succ h25
+    obtain ⟨x27, b27, rfl, h27⟩ := len_ge_succ h26
+    obtain ⟨x28, b28, rfl, h28⟩ := len_ge_succ h27
+    obtain ⟨x29, b29, rfl, h29⟩ := len_ge_succ h28
+    simp only [List.drop_succ_cons, List.drop_zero, ClockQuality.deserialize, pure, Except.pure,
+      Except.ok.injEq] at h
+    subst h
+    simp only [List.take_succ_cons, List.take_zero] at hob ⊢
+    have eU : beBytes 2 (beNat [x10, x11]) = [x10, x11] := beBytes_beNat [x10, x11]
+    have eV : beBytes 2 (beNat [x16, x17]) = [x16, x17] := beBytes_beNat [x16, x17]
+    have eI : beBytes 8 (beNat [x19, x20, x21, x22, x23, x24, x25, x26]) = [x19, x20, x21, x22, x23, x24, x25, x26] :=
+      beBytes_beNat [x19, x20, x21, x22, x23, x24, x25, x26]
+    have eS : beBytes 2 (beNat [x27, x28]) = [x27, x28] := beBytes_beNat [x27, x28]
+    simp only [Body.serialize, hold, ClockQuality.bytes, ClockAccuracy.toPrimitive_fromPrimitive, bind, Except.bind,
+      pure, Except.pure, hob, eU, eV, eI, eS, TimeSource.toPrimitive_fromPrimitive, UInt8.ofNat_toNat, canonBody,
+      List.cons_append, List.nil_append]
+    simp
+
+theorem Management.ser_deser (c : Bytes) (g : Management) (old tl : Bytes) (h : Management.deserialize c = .ok g)
+    (hold : old.drop 10 = 0 :: tl) :
+    (Body.management g).serialize old = .ok (canonBody 13 (c.take 14)) := by
+  unfold Management.deserialize at h
+  split at h
+  · cases h
+  · rename_i hl
+    cases ht : PortIdentity.deserialize c with
+    | error e => simp [ht, bind, Except.bind] at h
+    | ok tp =>
+    have hob := PortIdentity.bytes_deser _ _ ht
+    rw [ht] at h
+    simp only [bind, Except.bind] at h
+    have hl : 14 ≤ c.length := by omega
+    obtain ⟨x0, b0, rfl, h0⟩ := len_ge_succ hl
+    obtain ⟨x1, b1, rfl, h1⟩ := len_ge_succ h0
+    obtain ⟨x2, b2, rfl, h2⟩ := len_ge_succ h1
+    obtain ⟨x3, b3, rfl, h3⟩ := len_ge_succ h2
+    obtain ⟨x4, b4, rfl, h4⟩ := len_ge_succ h3
+    obtain ⟨x5, b5, rfl, h5⟩ := len_ge_succ h4
+    obtain ⟨x6, b6, rfl, h6⟩ := len_ge_succ h5
+    obtain ⟨x7, b7, rfl, h7⟩ := len_ge_succ h6
+    obtain ⟨x8, b8, rfl, h8⟩ := len_ge_succ h7
+    obtain ⟨x9, b9, rfl, h9⟩ := len_ge_succ h8
+    obtain ⟨x10, b10, rfl, h10⟩ := len_ge_succ h9
+    obtain ⟨x11, b11, rfl, h11⟩ := len_ge_succ h10
+    obtain ⟨x12, b12, rfl, h12⟩ := len_ge_succ h11
+    obtain ⟨x13, b13, rfl, h13⟩ := len_ge_succ h12
+    simp only [List.drop_succ_cons, List.drop_zero, pure, Except.pure, Except.ok.injEq] at h
+    subst h
+    simp only [List.take_succ_cons, List.take_zero] at hob ⊢
+    simp only [Body.serialize, hold, hob, UInt8.ofNat_toNat, canonBody, canonAct, List.cons_append, List.nil_append]
+    simp
+
+
+
+/-- every body: parse, then serialise into a zeroed window = the canonical body octets -/
+theorem Body.ser_deser (ty : Nat) (c : Bytes) (body : Body) (h : Body.deserialize ty c = .ok body) :
+    body.serialize (List.replicate body.wireSize 0) = .ok (canonBody ty (c.take body.wireSize)) := by
+  unfold Body.deserialize at h
+  split at h
+  · rename_i hty; subst hty
+    cases ht : Timestamp.deserialize c with
+    | error e => simp [ht, bind, Except.bind] at h
+    | ok t =>
+      simp [ht, bind, Except.bind, pure, Except.pure] at h
+      subst h
+      simp [Body.serialize, Body.wireSize, canonBody, Timestamp.bytes_deser _ _ ht]
+  split at h
+  · rename_i hty; subst hty
+    cases ht : Timestamp.deserialize c with
+    | error e => simp [ht, bind, Except.bind] at h
+    | ok t =>
+      simp [ht, bind, Except.bind, pure, Except.pure] at h
+      subst h
+      simp [Body.serialize, Body.wireSize, canonBody, Timestamp.bytes_deser _ _ ht]
+  split at h
+  · rename_i hty; subst hty
+    split at h
+    · cases h
+    · cases ht : Timestamp.deserialize c with
+      | error e => simp [ht, bind, Except.bind] at h
+      | ok t =>
+        simp [ht, bind, Except.bind, pure, Except.pure] at h
+        subst h
+        simp [Body.serialize, Body.wireSize, canonBody, Timestamp.bytes_deser _ _ ht, List.take_take]
+  split at h
+  · rename_i hty; subst hty
+    cases ht : tsPort c with
+    | error e => simp [ht, bind, Except.bind] at h
+    | ok r =>
+      obtain ⟨t, p⟩ := r
+      simp [ht, bind, Except.bind, pure, Except.pure] at h
+      subst h
+      simp [Body.serialize, Body.wireSize, canonBody, tsPort_bytes_deser _ _ _ ht]
+  split at h
+  · rename_i hty; subst hty
+    cases ht : Timestamp.deserialize c with
+    | error e => simp [ht, bind, Except.bind] at h
+    | ok t =>
+      simp [ht, bind, Except.bind, pure, Except.pure] at h
+      subst h
+      simp [Body.serialize, Body.wireSize, canonBody, Timestamp.bytes_deser _ _ ht]
+  split at h
+  · rename_i hty; subst hty
+    cases ht : tsPort c with
+    | error e => simp [ht, bind, Except.bind] at h
+    | ok r =>
+      obtain ⟨t, p⟩ := r
+      simp [ht, bind, Except.bind, pure, Except.pure] at h
+      subst h
+      simp [Body.serialize, Body.wireSize, canonBody, tsPort_bytes_deser _ _ _ ht]
+  split at h
+  · rename_i hty; subst hty
+    cases ht : tsPort c with
+    | error e => simp [ht, bind, Except.bind] at h
+    | ok r =>
+      obtain ⟨t, p⟩ := r
+      simp [ht, bind, Except.bind, pure, Except.pure] at h
+      subst h
+      simp [Body.serialize, Body.wireSize, canonBody, tsPort_bytes_deser _ _ _ ht]
+  split at h
+  · rename_i hty; subst hty
+    cases ht : Announce.deserialize c with
+    | error e => simp [ht, bind, Except.bind] at h
+    | ok t =>
+      simp [ht, bind, Except.bind, pure, Except.pure] at h
+      subst h
+      exact Announce.ser_deser c t _ (List.replicate 17 0) ht rfl
+  split at h
+  · rename_i hty; subst hty
+    cases ht : PortIdentity.deserialize c with
+    | error e => simp [ht, bind, Except.bind] at h
+    | ok t =>
+      simp [ht, bind, Except.bind, pure, Except.pure] at h
+      subst h
+      simp [Body.serialize, Body.wireSize, canonBody, PortIdentity.bytes_deser _ _ ht]
+  split at h
+  · rename_i hty; subst hty
+    cases ht : Management.deserialize c with
+    | error e => simp [ht, bind, Except.bind] at h
+    | ok t =>
+      simp [ht, bind, Except.bind, pure, Except.pure] at h
+      subst h
+      exact Management.ser_deser c t _ (List.replicate 3 0) ht rfl
+  · cases h
+
+
+
+theorem canonHeader_take (b : Bytes) (n : Nat) (hn : 34 ≤ n) (hb : 34 ≤ b.length) :
+    canonHeader (b.take n) = canonHeader b ∧ (b.take n).getD 0 0 = b.getD 0 0 ∧
+      canonHeader b = (canonHeader b).take 34 ∧ (canonHeader b).length = 34 := by
+  obtain ⟨k, rfl⟩ : ∃ k, n = k + 34 := ⟨n - 34, by omega⟩
+  obtain ⟨x0, b0, rfl, h0⟩ := len_ge_succ hb
+  obtain ⟨x1, b1, rfl, h1⟩ := len_ge_succ h0
+  obtain ⟨x2, b2, rfl, h2⟩ := len_ge_succ h1
+  obtain ⟨x3, b3, rfl, h3⟩ := len_ge_succ h2
+  obtain ⟨x4, b4, rfl, h4⟩ := len_ge_succ h3
+  obtain ⟨x5, b5, rfl, h5⟩ := len_ge_succ h4
+  obtain ⟨x6, b6, rfl, h6⟩ := len_ge_succ h5
+  obtain ⟨x7, b7, rfl, h7⟩ := len_ge_succ h6
+  obtain ⟨x8, b8, rfl, h8⟩ := len_ge_succ h7
+  obtain ⟨x9, b9, rfl, h9⟩ := len_ge_succ h8
+  obtain ⟨x10, b10, rfl, h10⟩ := len_ge_succ h9
+  obtain ⟨x11, b11, rfl, h11⟩ := len_ge_succ h10
+  obtain ⟨x12, b12, rfl, h12⟩ := len_ge_succ h11
+  obtain ⟨x13, b13, rfl, h13⟩ := len_ge_succ h12
+  obtain ⟨x14, b14, rfl, h14⟩ := len_ge_succ h13
+  obtain ⟨x15, b15, rfl, h15⟩ := len_ge_succ h14
+  obtain ⟨x16, b16, rfl, h16⟩ := len_ge_succ h15
+  obtain ⟨x17, b17, rfl, h17⟩ := len_ge_succ h16
+  obtain ⟨x18, b18, rfl, h18⟩ := len_ge_succ h17
+  obtain ⟨x19, b19, rfl, h19⟩ := len_ge_succ h18
+  obtain ⟨x20, b20, rfl, h20⟩ := len_ge_succ h19
+  obtain ⟨x21, b21, rfl, h21⟩ := len_ge_succ h20
+  obtain ⟨x22, b22, rfl, h22⟩ := len_ge_succ h21
+  obtain ⟨x23, b23, rfl, h23⟩ := len_ge_succ h22
+  obtain ⟨x24, b24, rfl, h24⟩ := len_ge_succ h23
+  obtain ⟨x25, b25, rfl, h25⟩ := len_ge_succ h24
+  obtain ⟨x26, b26, rfl, h26⟩ := len_ge_succ h25
+  obtain ⟨x27, b27, rfl, h27⟩ := len_ge_succ h26
+  obtain ⟨x28, b28, rfl, h28⟩ := len_ge_succ h27
+  obtain ⟨x29, b29, rfl, h29⟩ := len_ge_succ h28
+  obtain ⟨x30, b30, rfl, h30⟩ := len_ge_succ h29
+  obtain ⟨x31, b31, rfl, h31⟩ := len_ge_succ h30
+  obtain ⟨x32, b32, rfl, h32⟩ := len_ge_succ h31
+  obtain ⟨x33, b33, rfl, h33⟩ := len_ge_succ h32
+  simp [List.take_succ_cons, canonHeader]
+
+theorem Body.wireSize_eq (body : Body) : body.wireSize = bodySize body.type := by
+  cases body <;> simp [Body.wireSize, Body.type, bodySize]
+
+theorem Header.deserialize_type (b : Bytes) (dh : DeserializedHeader) (h : Header.deserialize b = .ok dh) :
+    dh.messageType = (b.getD 0 0).toNat % 16 ∧ dh.messageLength < 2 ^ 16 ∧ 34 ≤ b.length := by
+  unfold Header.deserialize at h
+  split at h
+  · simp only [] at h
+    split at h
+    · cases h
+      refine ⟨by simp, Nat.lt_of_lt_of_le (beNat_lt _) (by simp), by simp⟩
+    · cases h
+  · cases h
+
+/-- the parsed prefix with exactly the fields the codec does not reproduce zeroed / canonicalised -/
+def canon (p : Bytes) : Bytes :=
+  canonHeader p ++ canonBody ((p.getD 0 0).toNat % 16) ((p.drop 34).take (bodySize ((p.getD 0 0).toNat % 16))) ++
+    p.drop (34 + bodySize ((p.getD 0 0).toNat % 16))
+
+/-- **parse, then re-serialise into a zeroed buffer = the canonical form of the parsed prefix** -/
+theorem Message.parse_then_ser_bytes (b : Bytes) (m : Message) (dh : DeserializedHeader)
+    (hh : Header.deserialize b = .ok dh) (h : Message.deserialize b = .ok m) (cap : Nat)
+    (hc : dh.messageLength ≤ cap) :
+    m.serialize (List.replicate cap 0) = .ok (canon (b.take dh.messageLength)) := by
+  obtain ⟨dh', hh', h34, hlen, hhd, hbody, hws, hsfx⟩ := Message.deserialize_inv b m h
+  rw [hh] at hh'; cases hh'
+  obtain ⟨hwb, hty⟩ := Body.deserialize_WF _ _ _ hbody
+  obtain ⟨htyb, hml, hb34⟩ := Header.deserialize_type b dh hh
+  have hseq := TlvSet.deserialize_eq _ _ hsfx
+  have hclen : ((b.take dh.messageLength).drop 34).length = dh.messageLength - 34 := by
+    simp [List.length_take]; omega
+  have hsl : m.suffix.length = dh.messageLength - 34 - m.body.wireSize := by
+    rw [hseq, List.length_drop, hclen]
+  have heven : m.suffix.length % 2 = 0 := by
+    have hv := Message.deserialize_suffix b m h
+    unfold TlvSet.deserialize at hv
+    split at hv
+    · rename_i hl; exact tlvLoop_even _ _ hl
+    · cases hv
+  rw [hclen] at hws
+  -- header
+  have hhs : m.header.serialize m.body.type (m.body.wireSize + m.suffix.length) = .ok (canonHeader b) := by
+    have := Header.ser_deser b dh hh h34
+    rw [hhd, hty]
+    have e : m.body.wireSize + m.suffix.length = dh.messageLength - 34 := by omega
+    rw [e]; exact this
+  -- body
+  have hwin : ((List.replicate cap (0 : UInt8)).drop 34).take m.body.wireSize = List.replicate m.body.wireSize 0 := by
+    rw [List.drop_replicate, List.take_replicate]
+    congr 1; omega
+  have hbs := Body.ser_deser _ _ _ hbody
+  have hser : m.serialize (List.replicate cap 0) =
+      .ok (canonHeader b ++ canonBody dh.messageType (((b.take dh.messageLength).drop 34).take m.body.wireSize) ++
+        m.suffix) := by
+    unfold Message.serialize
+    rw [List.length_replicate, if_neg (by omega), if_neg (by omega)]
+    unfold TlvSet.wireSize
+    rw [if_neg (by omega)]
+    simp only [bind, Except.bind, hhs, hwin, hbs]
+    rw [if_neg (by omega)]
+    rfl
+  rw [hser]
+  obtain ⟨hct, hg0, _, _⟩ := canonHeader_take b dh.messageLength h34 hb34
+  unfold canon
+  rw [hct, hg0, ← htyb, ← hty, ← Body.wireSize_eq, hseq, List.drop_drop]
+
+
+
+theorem canon6_self (b : UInt8) (h1 : b.toNat / 8 % 4 = 0) (h2 : b.toNat / 128 = 0) : canon6 b = b := by
+  apply UInt8.toNat_inj.mp
+  have := b.toNat_lt
+  unfold canon6; rw [toNat_ofNat]; omega
+
+theorem canon7_self (b : UInt8) (h : b.toNat / 128 = 0) : canon7 b = b := by
+  apply UInt8.toNat_inj.mp
+  have := b.toNat_lt
+  unfold canon7; rw [toNat_ofNat]; omega
+
+/-- reserved header fields are zero -/
+def ReservedZeroHeader (p : Bytes) : Prop :=
+  (p.getD 6 0).toNat / 8 % 4 = 0 ∧ (p.getD 6 0).toNat / 128 = 0 ∧ (p.getD 7 0).toNat / 128 = 0 ∧
+  p.getD 16 0 = 0 ∧ p.getD 17 0 = 0 ∧ p.getD 18 0 = 0 ∧ p.getD 19 0 = 0 ∧ p.getD 32 0 = 0
+
+/-- reserved / non-canonical body fields (`q` = the octets after the 34-byte header) -/
+def ReservedZeroBody (ty : Nat) (q : Bytes) : Prop :=
+  (ty = 2 → (q.drop 10).take 10 = List.replicate 10 0) ∧
+  (ty = 11 → q.getD 12 0 = 0 ∧
+     (ClockAccuracy.fromPrimitive (q.getD 15 0).toNat ≠ .reserved ∨ q.getD 15 0 = 0)) ∧
+  (ty = 13 → q.getD 10 0 = 0 ∧ (q.getD 13 0).toNat ≤ 5)
+
+theorem canonHeader_self (p : Bytes) (hl : 34 ≤ p.length) (hr : ReservedZeroHeader p) :
+    canonHeader p = p.take 34 := by
+  obtain ⟨x0, b0, rfl, h0⟩ := len_ge_succ hl
+  obtain ⟨x1, b1, rfl, h1⟩ := len_ge_succ h0
+  obtain ⟨x2, b2, rfl, h2⟩ := len_ge_succ h1
+  obtain ⟨x3, b3, rfl, h3⟩ := len_ge_succ h2
+  obtain ⟨x4, b4, rfl, h4⟩ := len_ge_succ h3
+  obtain ⟨x5, b5, rfl, h5⟩ := len_ge_succ h4
+  obtain ⟨x6, b6, rfl, h6⟩ := len_ge_succ h5
+  obtain ⟨x7, b7, rfl, h7⟩ := len_ge_succ h6
+  obtain ⟨x8, b8, rfl, h8⟩ := len_ge_succ h7
+  obtain ⟨x9, b9, rfl, h9⟩ := len_ge_succ h8
+  obtain ⟨x10, b10, rfl, h10⟩ := len_ge_succ h9
+  obtain ⟨x11, b11, rfl, h11⟩ := len_ge_succ h10
+  obtain ⟨x12, b12, rfl, h12⟩ := len_ge_succ h11
+  obtain ⟨x13, b13, rfl, h13⟩ := len_ge_succ h12
+  obtain ⟨x14, b14, rfl, h14⟩ := len_ge_succ h13
+  obtain ⟨x15, b15, rfl, h15⟩ := len_ge_succ h14
+  obtain ⟨x16, b16, rfl, h16⟩ := len_ge_succ h15
+  obtain ⟨x17, b17, rfl, h17⟩ := len_ge_succ h16
+  obtain ⟨x18, b18, rfl, h18⟩ := len_ge_succ h17
+  obtain ⟨x19, b19, rfl, h19⟩ := len_ge_succ h18
+  obtain ⟨x20, b20, rfl, h20⟩ := len_ge_succ h19
+  obtain ⟨x21, b21, rfl, h21⟩ := len_ge_succ h20
+  obtain ⟨x22, b22, rfl, h22⟩ := len_ge_succ h21
+  obtain ⟨x23, b23, rfl, h23⟩ := len_ge_succ h22
+  obtain ⟨x24, b24, rfl, h24⟩ := len_ge_succ h23
+  obtain ⟨x25, b25, rfl, h25⟩ := len_ge_succ h24
+  obtain ⟨x26, b26, rfl, h26⟩ := len_ge_succ h25
+  obtain ⟨x27, b27, rfl, h27⟩ := len_ge_succ h26
+  obtain ⟨x28, b28, rfl, h28⟩ := len_ge_succ h27
+  obtain ⟨x29, b29, rfl, h29⟩ := len_ge_succ h28
+  obtain ⟨x30, b30, rfl, h30⟩ := len_ge_succ h29
+  obtain ⟨x31, b31, rfl, h31⟩ := len_ge_succ h30
+  obtain ⟨x32, b32, rfl, h32⟩ := len_ge_succ h31
+  obtain ⟨x33, b33, rfl, h33⟩ := len_ge_succ h32
+  obtain ⟨r1, r2, r3, r4, r5, r6, r7, r8⟩ := hr
+  simp only [List.getD_cons_succ, List.getD_cons_zero] at r1 r2 r3 r4 r5 r6 r7 r8
+  simp [canonHeader, canon6_self _ r1 r2, canon7_self _ r3, r4, r5, r6, r7, r8]
+
+theorem canonBody_self (ty : Nat) (q : Bytes) (hl : bodySize ty ≤ q.length) (hr : ReservedZeroBody ty q) :
+    canonBody ty (q.take (bodySize ty)) = q.take (bodySize ty) := by
+  obtain ⟨r2, r11, r13⟩ := hr
+  by_cases h2 : ty = 2
+  · subst h2
+    have hl : 20 ≤ q.length := by simpa [bodySize] using hl
+    have e := r2 rfl
+    have : bodySize 2 = 20 := by simp [bodySize]
+    rw [this]
+    unfold canonBody
+    rw [if_pos rfl, List.take_take]
+    have e2 : q.take 20 = q.take 10 ++ (q.drop 10).take 10 := by
+      rw [← List.take_append_drop 10 (q.take 20)]
+      simp [List.take_take, List.drop_take]
+    rw [e2, e]
+    simp
+  · by_cases h11 : ty = 11
+    · subst h11
+      have hl : 30 ≤ q.length := by simpa [bodySize] using hl
+      obtain ⟨ra, rb⟩ := r11 rfl
+      have : bodySize 11 = 30 := by simp [bodySize]
+      rw [this]
+      obtain ⟨x0, b0, rfl, h0⟩ := len_ge_succ hl
+      obtain ⟨x1, b1, rfl, h1⟩ := len_ge_succ h0
+      obtain ⟨x2, b2, rfl, h2⟩ := len_ge_succ h1
+      obtain ⟨x3, b3, rfl, h3⟩ := len_ge_succ h2
+      obtain ⟨x4, b4, rfl, h4⟩ := len_ge_succ h3
+      obtain ⟨x5, b5, rfl, h5⟩ := len_ge_succ h4
+      obtain ⟨x6, b6, rfl, h6⟩ := len_ge_succ h5
+      obtain ⟨x7, b7, rfl, h7⟩ := len_ge_succ h6
+      obtain ⟨x8, b8, rfl, h8⟩ := len_ge_succ h7
+      obtain ⟨x9, b9, rfl, h9⟩ := len_ge_succ h8
+      obtain ⟨x10, b10, rfl, h10⟩ := len_ge_succ h9
+      obtain ⟨x11, b11, rfl, h11⟩ := len_ge_succ h10
+      obtain ⟨x12, b12, rfl, h12⟩ := len_ge_succ h11
+      obtain ⟨x13, b13, rfl, h13⟩ := len_ge_succ h12
+      obtain ⟨x14, b14, rfl, h14⟩ := len_ge_succ h13
+      obtain ⟨x15, b15, rfl, h15⟩ := len_ge_succ h14
+      obtain ⟨x16, b16, rfl, h16⟩ := len_ge_succ h15
+      obtain ⟨x17, b17, rfl, h17⟩ := len_ge_succ h16
+      obtain ⟨x18, b18, rfl, h18⟩ := len_ge_succ h17
+      obtain ⟨x19, b19, rfl, h19⟩ := len_ge_succ h18
+      obtain ⟨x20, b20, rfl, h20⟩ := len_ge_succ h19
+      obtain ⟨x21, b21, rfl, h21⟩ := len_ge_succ h20
+      obtain ⟨x22, b22, rfl, h22⟩ := len_ge_succ h21
+      obtain ⟨x23, b23, rfl, h23⟩ := len_ge_succ h22
+      obtain ⟨x24, b24, rfl, h24⟩ := len_ge_succ h23
+      obtain ⟨x25, b25, rfl, h25⟩ := len_ge_succ h24
+      obtain ⟨x26, b26, rfl, h26⟩ := len_ge_succ h25
+      obtain ⟨x27, b27, rfl, h27⟩ := len_ge_succ h26
+      obtain ⟨x28, b28, rfl, h28⟩ := len_ge_succ h27
+      obtain ⟨x29, b29, rfl, h29⟩ := len_ge_succ h28
+      simp only [List.getD_cons_succ, List.getD_cons_zero] at ra rb
+      have hacc : canonAcc x15 = x15 := by
+        unfold canonAcc
+        rcases rb with rb | rb
+        · rw [if_neg rb]
+        · subst rb; simp
+      simp [canonBody, ra, hacc]
+    · by_cases h13 : ty = 13
+      · subst h13
+        have hl : 14 ≤ q.length := by simpa [bodySize] using hl
+        obtain ⟨ra, rb⟩ := r13 rfl
+        have : bodySize 13 = 14 := by simp [bodySize]
+        rw [this]
+        obtain ⟨x0, b0, rfl, h0⟩ := len_ge_succ hl
+        obtain ⟨x1, b1, rfl, h1⟩ := len_ge_succ h0
+        obtain ⟨x2, b2, rfl, h2⟩ := len_ge_succ h1
+        obtain ⟨x3, b3, rfl, h3⟩ := len_ge_succ h2
+        obtain ⟨x4, b4, rfl, h4⟩ := len_ge_succ h3
+        obtain ⟨x5, b5, rfl, h5⟩ := len_ge_succ h4
+        obtain ⟨x6, b6, rfl, h6⟩ := len_ge_succ h5
+        obtain ⟨x7, b7, rfl, h7⟩ := len_ge_succ h6
+        obtain ⟨x8, b8, rfl, h8⟩ := len_ge_succ h7
+        obtain ⟨x9, b9, rfl, h9⟩ := len_ge_succ h8
+        obtain ⟨x10, b10, rfl, h10⟩ := len_ge_succ h9
+        obtain ⟨x11, b11, rfl, h11⟩ := len_ge_succ h10
+        obtain ⟨x12, b12, rfl, h12⟩ := len_ge_succ h11
+        obtain ⟨x13, b13, rfl, h13⟩ := len_ge_succ h12
+        simp only [List.getD_cons_succ, List.getD_cons_zero] at ra rb
+        have hact : canonAct x13 = x13 := by
+          apply UInt8.toNat_inj.mp
+          unfold canonAct; rw [toNat_ofNat]; have := x13.toNat_lt; omega
+        simp [canonBody, ra, hact]
+      · unfold canonBody
+        rw [if_neg h2, if_neg h11, if_neg h13]
+
+
+/-- a prefix whose reserved fields are zero is its own canonical form -/
+theorem canon_eq_self (p : Bytes) (hl : 34 + bodySize ((p.getD 0 0).toNat % 16) ≤ p.length)
+    (hh : ReservedZeroHeader p) (hb : ReservedZeroBody ((p.getD 0 0).toNat % 16) (p.drop 34)) : canon p = p := by
+  unfold canon
+  rw [canonHeader_self p (by omega) hh, canonBody_self _ _ (by simp only [List.length_drop]; omega) hb, ← List.drop_drop,
+    List.append_assoc, List.take_append_drop, List.take_append_drop]
+
+
+/-! ### what the encoder reads from / leaves in the caller's buffer -/
+
+
+/-- the only octet of the body window the encoder reads (= leaves unwritten): Announce 12, Management 10 -/
+def Body.unwritten : Body → Option Nat
+  | .announce _ => some 12
+  | .management _ => some 10
+  | _ => none
+
+theorem drop_eq_of_getElem? (l : Bytes) (n : Nat) :
+    (match l.drop n with | x :: _ => some x | [] => none) = l[n]? := by
+  induction l generalizing n with
+  | nil => simp
+  | cons a l ih =>
+    cases n with
+    | zero => simp
+    | succ n => simpa using ih n
+
+/-- `MessageBody::serialize` depends on the old window content only through the unwritten octet -/
+theorem Body.serialize_congr (body : Body) (old old' : Bytes)
+    (h : ∀ i, body.unwritten = some i → old[i]? = old'[i]?) : body.serialize old = body.serialize old' := by
+  cases body with
+  | announce a =>
+    have h12 := h 12 rfl
+    rw [← drop_eq_of_getElem? old 12, ← drop_eq_of_getElem? old' 12] at h12
+    simp only [Body.serialize]
+    cases h1 : old.drop 12 with
+    | nil => cases h2 : old'.drop 12 with
+      | nil => rfl
+      | cons y t => rw [h1, h2] at h12; cases h12
+    | cons x t => cases h2 : old'.drop 12 with
+      | nil => rw [h1, h2] at h12; cases h12
+      | cons y t' => rw [h1, h2] at h12; cases h12; rfl
+  | management g =>
+    have h10 := h 10 rfl
+    rw [← drop_eq_of_getElem? old 10, ← drop_eq_of_getElem? old' 10] at h10
+    simp only [Body.serialize]
+    cases h1 : old.drop 10 with
+    | nil => cases h2 : old'.drop 10 with
+      | nil => rfl
+      | cons y t => rw [h1, h2] at h10; cases h10
+    | cons x t => cases h2 : old'.drop 10 with
+      | nil => rw [h1, h2] at h10; cases h10
+      | cons y t' => rw [h1, h2] at h10; cases h10; rfl
+  | sync t => rfl
+  | delayReq t => rfl
+  | pDelayReq t => rfl
+  | pDelayResp t q => rfl
+  | followUp t => rfl
+  | delayResp t q => rfl
+  | pDelayRespFollowUp t q => rfl
+  | signaling q => rfl
+
+/-- `Message::serialize` reads the caller's buffer only for its length and for the ONE octet it leaves
+    unwritten (Announce: octet 34+12 = 46, Management: octet 34+10 = 44); every other output octet is
+    independent of the old buffer content. -/
+theorem Message.serialize_congr (m : Message) (buf buf' : Bytes) (hl : buf.length = buf'.length)
+    (h : ∀ i, m.body.unwritten = some i → buf[34 + i]? = buf'[34 + i]?) : m.serialize buf = m.serialize buf' := by
+  unfold Message.serialize
+  rw [hl]
+  have hw : m.body.serialize ((buf.drop 34).take m.body.wireSize) =
+      m.body.serialize ((buf'.drop 34).take m.body.wireSize) := by
+    apply Body.serialize_congr
+    intro i hi
+    have hlt : i < m.body.wireSize := by
+      cases hb : m.body <;> rw [hb] at hi <;> simp [Body.unwritten] at hi <;> subst hi <;> simp [Body.wireSize]
+    simp only [List.getElem?_take, hlt, if_true, List.getElem?_drop]
+    exact h i hi
+  rw [hw]
+
+theorem Header.serialize_length (h : Header) (ty n : Nat) (hb : Bytes) (hs : h.serialize ty n = .ok hb) :
+    hb.length = 34 := by
+  unfold Header.serialize at hs
+  split at hs
+  · cases hs
+  · cases hs; simp [beBytes_length, PortIdentity.bytes]
+
+/-- the unwritten octet of the body window goes out as found there -/
+theorem Body.serialize_unwritten (body : Body) (old bb : Bytes) (i : Nat) (hi : body.unwritten = some i)
+    (h : body.serialize old = .ok bb) : bb[i]? = old[i]? := by
+  cases body with
+  | announce a =>
+    simp [Body.unwritten] at hi; subst hi
+    rw [← drop_eq_of_getElem? old 12]
+    simp only [Body.serialize] at h
+    cases h1 : old.drop 12 with
+    | nil => rw [h1] at h; cases h
+    | cons x t =>
+      rw [h1] at h
+      cases hq : a.quality.bytes with
+      | error e => simp [hq, bind, Except.bind] at h
+      | ok q =>
+        simp only [hq, bind, Except.bind, pure, Except.pure, Except.ok.injEq] at h
+        subst h
+        have : (a.origin.bytes ++ beBytes 2 a.utcOffset).length = 12 := by
+          simp [Timestamp.bytes_length, beBytes_length]
+        simp only [List.append_assoc]
+        rw [← List.append_assoc a.origin.bytes, List.getElem?_append_right (by omega), this]
+        simp
+  | management g =>
+    simp [Body.unwritten] at hi; subst hi
+    rw [← drop_eq_of_getElem? old 10]
+    simp only [Body.serialize] at h
+    cases h1 : old.drop 10 with
+    | nil => rw [h1] at h; cases h
+    | cons x t =>
+      rw [h1] at h
+      simp only [Except.ok.injEq] at h
+      subst h
+      rw [List.getElem?_append_right (by simp [PortIdentity.bytes_length]), PortIdentity.bytes_length]
+      simp
+  | sync t => simp [Body.unwritten] at hi
+  | delayReq t => simp [Body.unwritten] at hi
+  | pDelayReq t => simp [Body.unwritten] at hi
+  | pDelayResp t q => simp [Body.unwritten] at hi
+  | followUp t => simp [Body.unwritten] at hi
+  | delayResp t q => simp [Body.unwritten] at hi
+  | pDelayRespFollowUp t q => simp [Body.unwritten] at hi
+  | signaling q => simp [Body.unwritten] at hi
+
+theorem Body.serialize_length (body : Body) (old bb : Bytes) (h : body.serialize old = .ok bb) :
+    bb.length = body.wireSize := by
+  cases body with
+  | announce a =>
+    simp only [Body.serialize] at h
+    split at h
+    · cases hq : a.quality.accuracy.toPrimitive with
+      | error e => simp [ClockQuality.bytes, hq, bind, Except.bind] at h
+      | ok q =>
+        simp only [ClockQuality.bytes, hq, bind, Except.bind, pure, Except.pure, Except.ok.injEq] at h
+        subst h
+        simp [Body.wireSize, Timestamp.bytes_length, beBytes_length]
+    · cases h
+  | management g =>
+    simp only [Body.serialize] at h
+    split at h
+    · cases h; simp [Body.wireSize, PortIdentity.bytes_length]
+    · cases h
+  | sync t => cases h; simp [Body.wireSize, Timestamp.bytes_length]
+  | delayReq t => cases h; simp [Body.wireSize, Timestamp.bytes_length]
+  | pDelayReq t => cases h; simp [Body.wireSize, Timestamp.bytes_length]
+  | pDelayResp t q => cases h; simp [Body.wireSize, Timestamp.bytes_length, PortIdentity.bytes_length]
+  | followUp t => cases h; simp [Body.wireSize, Timestamp.bytes_length]
+  | delayResp t q => cases h; simp [Body.wireSize, Timestamp.bytes_length, PortIdentity.bytes_length]
+  | pDelayRespFollowUp t q => cases h; simp [Body.wireSize, Timestamp.bytes_length, PortIdentity.bytes_length]
+  | signaling q => cases h; simp [Body.wireSize, PortIdentity.bytes_length]
+
+/-- the unwritten octet goes out on the wire as found in the caller's buffer (stale data unless the caller
+    zeroed it) -/
+theorem Message.serialize_unwritten (m : Message) (buf out : Bytes) (i : Nat) (hi : m.body.unwritten = some i)
+    (h : m.serialize buf = .ok out) : out[34 + i]? = buf[34 + i]? := by
+  unfold Message.serialize at h
+  split at h; · cases h
+  split at h; · cases h
+  rename_i hl1 hl2
+  cases hw : TlvSet.wireSize m.suffix with
+  | error e => simp [hw, bind, Except.bind] at h
+  | ok sfx =>
+  cases hhs : m.header.serialize m.body.type (m.body.wireSize + sfx) with
+  | error e => simp [hw, hhs, bind, Except.bind] at h
+  | ok hb =>
+  cases hbs : m.body.serialize ((buf.drop 34).take m.body.wireSize) with
+  | error e => simp [hw, hhs, hbs, bind, Except.bind] at h
+  | ok bb =>
+  simp only [hw, hhs, hbs, bind, Except.bind] at h
+  split at h; · cases h
+  simp only [pure, Except.pure, Except.ok.injEq] at h
+  subst h
+  have hlen := Header.serialize_length _ _ _ _ hhs
+  have hlt : i < m.body.wireSize := by
+    cases hb' : m.body <;> rw [hb'] at hi <;> simp [Body.unwritten] at hi <;> subst hi <;> simp [Body.wireSize]
+  have hbl : bb.length = m.body.wireSize := Body.serialize_length _ _ _ hbs
+  have hbu := Body.serialize_unwritten m.body _ bb i hi hbs
+  rw [List.append_assoc, List.getElem?_append_right (by omega), hlen]
+  have e : 34 + i - 34 = i := by omega
+  rw [e, List.getElem?_append_left (by omega), hbu]
+  simp only [List.getElem?_take, hlt, if_true, List.getElem?_drop]
+
+
 end NtpVerif.PtpWire
